@@ -26,7 +26,9 @@ CONFIGS = {
 def server_cfg(binary, name):
     spw, users = CONFIGS[name]
     return dict(password=sut.password_hash(binary, spw) if spw else None,
-                users=[dict(name=n, nick=n, password=sut.password_hash(binary, p) if p else None, mask=m)
+                # the documented `nick` of a predefined user is deliberately different from its `name`: users are
+                # recognised by the name given with USER
+                users=[dict(name=n, nick="nk" + n, password=sut.password_hash(binary, p) if p else None, mask=m)
                        for n, (p, m) in users.items()],
                 operators=[dict(name="root", password=sut.password_hash(binary, "rootpw"))])
 
